@@ -23,7 +23,10 @@ class Profile:
         self.maxdepth = [2, 2, 3]  # choices
         self.wild = 0.3  # probability that a handler slot is a wildcard handler
         self.wild_dispatch = True
-        self.deep_wild = False  # allow a dispatching wildcard handler with maxdepth 3 (trips the recursion guard)
+        self.deep_wild = False
+        self.subclass = 0.25  # probability that a bus is an instance of a second EventBus subclass
+        self.cleanup = 0.0  # probability that an async handler needs time to unwind when cancelled
+        self.cleanup_durs = [0.05, 0.25, 0.5]  # allow a dispatching wildcard handler with maxdepth 3 (trips the recursion guard)
         self.strpat = 0.2
         self.sync = 0.25
         self.min_handlers = 1
@@ -104,7 +107,10 @@ def scenario(draw, p: Profile):
     ranks = draw(st.permutations(list(range(1, nb + 1))))
     buses = []
     for i in range(nb):
-        buses.append({'par': chance(draw, p.par), 'hist': draw(st.sampled_from(p.hist)), 'rank': ranks[i]})
+        b = {'par': chance(draw, p.par), 'hist': draw(st.sampled_from(p.hist)), 'rank': ranks[i]}
+        if chance(draw, p.subclass):
+            b['cls'] = 1  # a sibling EventBus subclass
+        buses.append(b)
     maxdepth = draw(st.sampled_from(p.maxdepth))
     fwd = []
     if nb > 1 and p.fwd and chance(draw, p.fwd):
@@ -134,6 +140,8 @@ def scenario(draw, p: Profile):
                 pat = level
             prog = draw(handler_prog(p, nb, 0 if wildcard else level, maxdepth, is_async, wildcard))
             h = {'bus': bi, 'pat': pat, 'kind': kind, 'prog': prog, 'ret': draw(st.sampled_from(p.rets))}
+            if p.cleanup and is_async and chance(draw, p.cleanup):
+                h['cleanup'] = draw(st.sampled_from(p.cleanup_durs))
             if p.dual and nb > 1 and chance(draw, p.dual):
                 h['bus2'] = draw(st.integers(0, nb - 1).filter(lambda x: x != bi))
             handlers.append(h)
